@@ -20,12 +20,17 @@ import (
 type hookClock struct {
 	clockwork.Clock
 	hook func()
+	skip int // clock reads to let pass before the hook runs
 }
 
 func (c *hookClock) Now() time.Time {
 	if h := c.hook; h != nil {
-		c.hook = nil
-		h()
+		if c.skip > 0 {
+			c.skip--
+		} else {
+			c.hook = nil
+			h()
+		}
 	}
 	return c.Clock.Now()
 }
@@ -85,7 +90,7 @@ func genTTL(r *Rng, tier string, p *Plan) {
 			// a listing with a refresh of a listed element landing in the middle of it
 			// (the listing reads the clock while it walks the entries)
 			it := PickOf(r, ttlItems...)
-			p.Add(Op{K: "list_during_add", S: it, At: now})
+			p.Add(Op{K: "list_during_add", S: it, At: now, N: int64(r.Intn(36))}) // N: which clock read of the listing queries it lands in
 			exp[it] = now + ttl
 		case 5:
 			// a lookup of an element with a refresh of it landing in the middle of the lookup
@@ -342,8 +347,11 @@ func runTTL(t *testing.T, p *Plan) *Outcome {
 					go func() { gid <- goid(); sut.add(op.S); close(done) }()
 					awaitGoroutine(<-gid, done)
 				}
+				clk.skip = int(op.N)
 				sut.members()
 				sut.length()
+				sut.extra() // for the map: SortedKeys, SortedValues, Get of every key, Values
+				clk.skip = 0
 				if clk.hook != nil {
 					clk.hook = nil
 					sut.add(op.S)
